@@ -386,6 +386,17 @@ def token_value_immutable(F, lm, tok: str) -> bool:
     return True
 
 
+def _is_compiled_regex(F, t) -> bool:
+    """t is a module-level name assigned once, from re.compile(...) / regex.compile(...)."""
+    if not (isinstance(t, tuple) and t[:2] == ('ref', 'modvar')):
+        return False
+    mod, _, name = t[2].rpartition('.')
+    m = F.modules.get(mod)
+    if m is None or len(m.assigns.get(name, [])) != 1 or not isinstance(m.assigns[name][0], ast.Call):
+        return False
+    return F.resolve_expr(m, m.assigns[name][0].func) in (('ext', 're.compile'), ('ext', 'regex.compile'))
+
+
 def _scalar_expr(F, t) -> bool:
     if not isinstance(t, tuple) or not t:
         return False
@@ -400,7 +411,11 @@ def _scalar_expr(F, t) -> bool:
         if isinstance(f, tuple) and f[0] == 'attr' and f[2] in ('replace', 'strip', 'lower', 'upper', 'lstrip', 'rstrip',
                                                                'encode', 'decode', 'format', 'join', 'translate'):
             return _scalar_expr(F, f[1])
+        if isinstance(f, tuple) and f[0] == 'attr' and f[2] in ('sub', 'subn') and _is_compiled_regex(F, f[1]):
+            return True         # <compiled pattern>.sub(repl, s) returns a str whatever repl is
         if isinstance(f, tuple) and f[0] == 'ref':
+            if f[1] == 'ext' and f[2] in ('re.sub', 'regex.sub', 're.escape'):
+                return True
             if f[1] == 'builtin' and f[2] in ('str', 'int', 'float', 'bool'):
                 return True
             if f[1] == 'ext' and f[2] in ('decimal.Decimal',):
